@@ -91,6 +91,13 @@ def _drive(script, timeout_s, default_s, conn_s, rng, sel):
                 B.inbuf += bytes(bn(written + i + 1) for i in range(a['m']))
                 written += a['m']
                 tr.append(dict(op='pw', m=a['m']))
+            elif op == 'close1':
+                t.close()                          # a single close() (the 'close' op calls it twice, which would repair a half-done first one)
+                closed = True
+                tr.append(dict(op='close', ok=True))
+                flush_log()
+            elif op == 'close_fault':
+                B.release_error = a['kind']        # the next close() finds the interface gone: libusb raises in releaseInterface
             elif op == 'partial_timeout':
                 B.partial_timeout = True          # the next backend read times out having received part of the data
             elif op in ('read', 'timeout'):
@@ -252,6 +259,13 @@ def body(ctx):
         for sys_ in systems:
             traces.append(drive(base, 1.5, None, seed=3, select=sel_, system=sys_))
             meta.append(dict(kind='selection / platform', script=base, device_selected_by=sel_, platform=sys_))
+    # a close() during which libusb raises (the interface is gone): the transport is closed all the same - use after close raises, and
+    # a new connect() works (seeded change C20-w12-c20-m2)
+    for kind in ('io', 'nodevice', 'pipe', 'timeout'):
+        cf = [dict(op='connect'), dict(op='write', m=24), dict(op='pw', m=8), dict(op='read', n=4), dict(op='close_fault', kind=kind), dict(op='close1'), dict(op='read', n=4),
+              dict(op='write', m=5), dict(op='connect'), dict(op='pw', m=2), dict(op='read', n=2), dict(op='write', m=9), dict(op='close'), dict(op='read', n=1)]
+        traces.append(drive(cf, 0.5, None, seed=7))
+        meta.append(dict(kind='backend error inside close(), then use after close and a new connection', error=kind, script=cf))
     # large writes (several maximum-size transfers' worth) with short transfers; a read that timed out with part of the data, then a new connection
     big = [dict(op='connect'), dict(op='write', m=40000), dict(op='write', m=16384), dict(op='write', m=16385), dict(op='write', m=70000), dict(op='pw', m=5), dict(op='partial_timeout'),
            dict(op='read', n=5), dict(op='close'), dict(op='connect'), dict(op='pw', m=4), dict(op='read', n=4), dict(op='write', m=33000)]
